@@ -17,11 +17,13 @@ import (
 // (depth-bounded); the result is, per feasible return, the normalised expression of each result value.
 
 type sval struct {
-	c   constant.Value // constant (non-nil) …
-	nil bool           // … or the nil constant
-	sym string         // … or a symbolic expression
-	tup []sval         // … or a tuple
-	dyn types.Type     // known dynamic type of an interface value (optional)
+	c    constant.Value // constant (non-nil) …
+	nil  bool           // … or the nil constant
+	sym  string         // … or a symbolic expression
+	tup  []sval         // … or a tuple
+	dyn  types.Type     // known dynamic type of an interface value (optional)
+	fn   *ssa.Function  // a function value (a named function, or a closure with its captured values in free)
+	free []sval
 }
 
 func (v sval) isConst() bool { return v.c != nil }
@@ -93,10 +95,19 @@ func (cfg *specCfg) run(fn *ssa.Function, args []sval) ([]specOutcome, string) {
 }
 
 func (sr *specRun) fn(fn *ssa.Function, args []sval, depth int) []specOutcome {
+	return sr.fnFree(fn, args, nil, depth)
+}
+
+func (sr *specRun) fnFree(fn *ssa.Function, args []sval, free []sval, depth int) []specOutcome {
 	if len(fn.Blocks) == 0 {
 		return nil
 	}
 	env := map[ssa.Value]sval{}
+	for i, fv := range fn.FreeVars {
+		if i < len(free) {
+			env[fv] = free[i]
+		}
+	}
 	for i, p := range fn.Params {
 		if i < len(args) {
 			env[p] = args[i]
@@ -139,7 +150,7 @@ func (sr *specRun) fn(fn *ssa.Function, args []sval, depth int) []specOutcome {
 			case *ssa.Global:
 				return symv(c.Pkg.Pkg.Name() + "." + c.Name())
 			case *ssa.Function:
-				return symv(c.Name())
+				return sval{sym: c.Name(), fn: c}
 			}
 			if x, ok := env[v]; ok {
 				return x
@@ -182,6 +193,16 @@ func (sr *specRun) fn(fn *ssa.Function, args []sval, depth int) []specOutcome {
 					// load: bound access path?
 					p := path(in)
 					if ia, isIA := in.X.(*ssa.IndexAddr); isIA {
+						g, _ := ia.X.(*ssa.Global)
+						if g == nil {
+							g = globalOfLoad(ia.X)
+						}
+						if g != nil {
+							if v, _, ok := roLookup(g, get(ia.Index)); ok {
+								env[in] = v
+								break
+							}
+						}
 						if _, isC := ia.Index.(*ssa.Const); !isC {
 							// element of a ranged slice
 							env[in] = symv("elem(" + get(ia.X).String() + ")")
@@ -192,6 +213,8 @@ func (sr *specRun) fn(fn *ssa.Function, args []sval, depth int) []specOutcome {
 						env[in] = bv
 					} else if cv, ok := specLoad(env, in.X); ok {
 						env[in] = cv // local variable / struct field / array element tracked through stores
+					} else if ep, ok := envPath(env, in); ok {
+						env[in] = symv(ep)
 					} else {
 						env[in] = symv(p)
 					}
@@ -217,7 +240,20 @@ func (sr *specRun) fn(fn *ssa.Function, args []sval, depth int) []specOutcome {
 				for _, a := range in.Call.Args {
 					as = append(as, get(a))
 				}
-				alts := sr.call(fn, in, as, depth, calls)
+				var target *ssa.Function
+				var free []sval
+				if mc, isMC := in.Call.Value.(*ssa.MakeClosure); isMC {
+					for _, b := range mc.Bindings {
+						free = append(free, captured(b, get))
+					}
+				} else if in.Call.StaticCallee() == nil && !in.Call.IsInvoke() {
+					if _, isB := in.Call.Value.(*ssa.Builtin); !isB {
+						if cv := get(in.Call.Value); cv.fn != nil {
+							target, free = cv.fn, cv.free
+						}
+					}
+				}
+				alts := sr.call(fn, in, as, depth, calls, target, free)
 				if len(alts) == 1 {
 					env[in] = alts[0].val
 					conds = append(append([]string{}, conds...), alts[0].conds...)
@@ -251,6 +287,16 @@ func (sr *specRun) fn(fn *ssa.Function, args []sval, depth int) []specOutcome {
 			case *ssa.Lookup:
 				x, idx := get(in.X), get(in.Index)
 				key := x.String() + "[" + idx.String() + "]"
+				if g := globalOfLoad(in.X); g != nil {
+					if v, found, ok := roLookup(g, idx); ok {
+						if in.CommaOk {
+							env[in] = sval{tup: []sval{v, constv(constant.MakeBool(found))}}
+						} else {
+							env[in] = v
+						}
+						break
+					}
+				}
 				if bv, ok := sr.cfg.Paths[key]; ok {
 					env[in] = bv
 				} else if in.CommaOk {
@@ -329,7 +375,17 @@ func (sr *specRun) fn(fn *ssa.Function, args []sval, depth int) []specOutcome {
 				} else {
 					env[in] = val
 				}
-			case *ssa.MakeSlice, *ssa.MakeMap, *ssa.MakeClosure, *ssa.Range, *ssa.Next:
+			case *ssa.MakeClosure:
+				cf, _ := in.Fn.(*ssa.Function)
+				cv := sval{sym: "closure", fn: cf}
+				if cf != nil {
+					cv.sym = cf.Name()
+				}
+				for _, b := range in.Bindings {
+					cv.free = append(cv.free, captured(b, get))
+				}
+				env[in] = cv
+			case *ssa.MakeSlice, *ssa.MakeMap, *ssa.Range, *ssa.Next:
 				env[in.(ssa.Value)] = symv(strings.TrimPrefix(fmt.Sprintf("%T", in), "*ssa."))
 			case *ssa.If:
 				cv := get(in.Cond)
@@ -389,8 +445,11 @@ type callAlt struct {
 
 func one(v sval) []callAlt { return []callAlt{{val: v}} }
 
-func (sr *specRun) call(fn *ssa.Function, in *ssa.Call, as []sval, depth int, calls map[*ssa.Function]int) []callAlt {
+func (sr *specRun) call(fn *ssa.Function, in *ssa.Call, as []sval, depth int, calls map[*ssa.Function]int, target *ssa.Function, free []sval) []callAlt {
 	callee := in.Call.StaticCallee()
+	if callee == nil {
+		callee = target // a function value resolved by the evaluation (constant table of functions, local closure)
+	}
 	name := "dyn"
 	if b, ok := in.Call.Value.(*ssa.Builtin); ok {
 		name = b.Name()
@@ -418,7 +477,7 @@ func (sr *specRun) call(fn *ssa.Function, in *ssa.Call, as []sval, depth int, ca
 			inl = sr.cfg.Inline(callee)
 		}
 		if inl {
-			sub := sr.fn(callee, as, depth+1)
+			sub := sr.fnFree(callee, as, free, depth+1)
 			// a unique outcome is substituted; otherwise the call stays symbolic but error-ness may still be decided
 			uniq := map[string]specOutcome{}
 			var order []string
@@ -608,6 +667,10 @@ func specLoad(env map[ssa.Value]sval, addr ssa.Value) (sval, bool) {
 	case *ssa.Alloc:
 		v, ok := env[a]
 		return v, ok
+	case *ssa.FreeVar: // a variable captured by reference: the value it had when the closure was made (assigned once)
+		if v, ok := env[a]; ok && v.sym != "&local" {
+			return v, true
+		}
 	case *ssa.FieldAddr:
 		if base, ok := specBase(env, a.X); ok {
 			if tv, ok := env[base]; ok && tv.tup != nil && a.Field < len(tv.tup) {
@@ -634,4 +697,67 @@ func effectsOf(conds []string) []string {
 		}
 	}
 	return out
+}
+
+// envPath renders the access path of v like path(), but names its root after what the environment binds it to: a
+// parameter of an inlined callee is named by the caller's argument, a field of a tracked local aggregate by the
+// value stored there. ok reports whether any such substitution happened.
+func envPath(env map[ssa.Value]sval, v ssa.Value) (string, bool) {
+	plain := func(x sval) bool {
+		return x.sym != "" && x.tup == nil && x.c == nil && !x.nil && x.sym != "zero" && x.sym != "&local" && !strings.HasSuffix(x.sym, "?") && !strings.HasPrefix(x.sym, "effect:")
+	}
+	switch x := v.(type) {
+	case *ssa.Parameter:
+		if b, ok := env[x]; ok && plain(b) && b.sym != x.Name() {
+			return b.sym, true
+		}
+		return x.Name(), false
+	case *ssa.UnOp:
+		if x.Op != token.MUL {
+			return path(v), false
+		}
+		if b, ok := specLoad(env, x.X); ok && plain(b) {
+			return b.sym, true
+		}
+		return envPath(env, x.X)
+	case *ssa.FieldAddr:
+		s, ok := envPath(env, x.X)
+		return s + "." + fieldName(x), ok
+	case *ssa.Field:
+		s, ok := envPath(env, x.X)
+		return s + "." + fieldNameV(x), ok
+	case *ssa.Call:
+		if c := x.Call.StaticCallee(); c != nil && len(x.Call.Args) == 1 && c.Signature.Recv() != nil {
+			s, ok := envPath(env, x.Call.Args[0])
+			return s + "." + c.Name() + "()", ok
+		}
+	}
+	return path(v), false
+}
+
+// captured: the value a closure sees for one binding. A variable captured by reference is bound to its value only if
+// it is assigned exactly once in the enclosing function (so the value at closure creation is the value at every call).
+func captured(b ssa.Value, get func(ssa.Value) sval) sval {
+	if al, ok := b.(*ssa.Alloc); ok {
+		stores := 0
+		if refs := al.Referrers(); refs != nil {
+			for _, r := range *refs {
+				switch x := r.(type) {
+				case *ssa.Store:
+					if x.Addr == ssa.Value(al) {
+						stores++
+					} else {
+						stores += 2
+					}
+				case *ssa.UnOp, *ssa.MakeClosure, *ssa.DebugRef:
+				default:
+					stores += 2 // address handed on: may be written elsewhere
+				}
+			}
+		}
+		if stores != 1 {
+			return symv("&local")
+		}
+	}
+	return get(b)
 }
